@@ -29,6 +29,7 @@ func (c *Ctx) runPathsWith(fd *ast.FuncDecl, conf func(*SX)) ([]*Path, string) {
 	paths = v.collectNorm(v.primitiveWriteNorm(v.sortNorm(paths)))
 	if c.quietHeap(fd, paths) {
 		paths = v.collapseEpochs(paths)
+		v.heapQuiet = true
 	}
 	return v.normalizeMapKeyLoads(v.shadowKeyNorm(v.snapshotNorm(v.normalizePaths(paths)))), ""
 }
